@@ -379,6 +379,118 @@ class Repo:
             for n in walk_shallow(f.node):
                 n._func = f
             f.node._func_self = f
+        self._propagate_new_aliases()
+
+    def _propagate_new_aliases(self):
+        """`v = <name>.<attr>...` introduced after the pinned inventory (baseline_functions.json, key "aliases") is
+        substituted away when that is semantics preserving: v and the root name are bound once, every attribute of the
+        chain is plain data (no property/method of any class has that name), nothing in the function stores to an
+        attribute of that name, and no function reachable from the function's calls does (constructors excepted: they
+        initialise a fresh object).  The rules then see `self.rows.pop(0)` for `rows = self.rows; rows.pop(0)`."""
+        import copy
+        import json as _json
+        from pathlib import Path as _P
+
+        try:
+            base = {tuple(x) for x in _json.loads(_P(__file__).with_name("baseline_functions.json").read_text()).get("aliases", None)}
+        except Exception:
+            return
+        self.propagated_aliases = []
+        member_names = set()
+        for c in self.classes.values():
+            member_names.update(k.split(".")[0] for k in c.methods)
+        storers: dict[str, set[str]] = {}
+        for g in self.functions.values():
+            if g.name == "__init__":
+                continue
+            for n in walk_shallow(g.node):
+                if isinstance(n, ast.Attribute) and isinstance(n.ctx, ast.Store | ast.Del):
+                    storers.setdefault(n.attr, set()).add(g.qualname)
+        reach_cache = {}
+
+        def reaches_storer(f, attr):
+            bad = storers.get(attr, set())
+            if not bad:
+                return False
+            if f.qualname not in reach_cache:
+                roots = []
+                for c in self.calls_in(f):
+                    try:
+                        roots.extend(self.resolve_call(c, f)[0])
+                    except AnalysisError:
+                        pass
+                reach_cache[f.qualname] = set(self.reachable_from(roots)) if roots else set()
+            return bool(reach_cache[f.qualname] & bad)
+
+        def chain(e):
+            attrs = []
+            while isinstance(e, ast.Attribute):
+                attrs.append(e.attr)
+                e = e.value
+            return (e.id, attrs) if isinstance(e, ast.Name) and attrs else None
+
+        for f in list(self.functions.values()):
+            changed = True
+            while changed:
+                changed = False
+                body = f.node.body
+                for idx, st in enumerate(body):
+                    if not (isinstance(st, ast.Assign) and len(st.targets) == 1 and isinstance(st.targets[0], ast.Name)):
+                        continue
+                    ch = chain(st.value)
+                    if ch is None or (f.qualname, norm(st)) in base:
+                        continue
+                    v, (r, attrs) = st.targets[0].id, ch
+                    if r == v:
+                        continue
+                    allnodes = list(ast.walk(f.node))
+                    if any(isinstance(n, ast.Global | ast.Nonlocal) for n in allnodes):
+                        continue
+                    v_stores = [n for n in allnodes if isinstance(n, ast.Name) and n.id == v and isinstance(n.ctx, ast.Store | ast.Del)]
+                    if len(v_stores) != 1:
+                        continue
+                    r_stores = [n for n in allnodes if isinstance(n, ast.Name) and n.id == r and isinstance(n.ctx, ast.Store | ast.Del)]
+                    params = {a.arg for a in [*f.node.args.posonlyargs, *f.node.args.args, *f.node.args.kwonlyargs]}
+                    if r in params:
+                        if r_stores:
+                            continue
+                    else:
+                        # a local bound once by an earlier top-level statement
+                        if len(r_stores) != 1 or not any(r_stores[0] in ast.walk(b) for b in body[:idx] if isinstance(b, ast.Assign)):
+                            continue
+                    if any(a in member_names for a in attrs):
+                        continue
+                    if any(isinstance(n, ast.Attribute) and n.attr in attrs and isinstance(n.ctx, ast.Store | ast.Del) for n in allnodes):
+                        continue
+                    if any(reaches_storer(f, a) for a in attrs):
+                        continue
+                    later = {id(n) for b in body[idx + 1:] for n in ast.walk(b)}
+                    uses = [n for n in allnodes if isinstance(n, ast.Name) and n.id == v and isinstance(n.ctx, ast.Load)]
+                    if not uses or any(id(n) not in later for n in uses):
+                        continue
+
+                    class _Sub(ast.NodeTransformer):
+                        def visit_Name(self_, n):
+                            if n.id == v and isinstance(n.ctx, ast.Load):
+                                new = ast.copy_location(ast.Name(id=r, ctx=ast.Load()), n)
+                                for a in reversed(attrs):
+                                    new = ast.copy_location(ast.Attribute(value=new, attr=a, ctx=ast.Load()), n)
+                                return new
+                            return n
+
+                    for k in range(idx + 1, len(body)):
+                        body[k] = _Sub().visit(body[k])
+                    del body[idx]
+                    for n in ast.walk(f.node):
+                        for c in ast.iter_child_nodes(n):
+                            c._parent = n
+                    for n in walk_shallow(f.node):
+                        n._func = f
+                    self._calls_cache.pop(f.qualname, None)
+                    self._callers = None
+                    self.propagated_aliases.append((f.qualname, norm(st)))
+                    changed = True
+                    break
 
     # ----------------------------------------------------------------- lookup
 
